@@ -1196,7 +1196,7 @@ class Engine:
         if ext is not None:
             yield from ext(self, ctx, args, kwargs)
             return
-        if contract is not None and not (self.current is not None and contract is self.current and ctx.depth == 0 and False):
+        if contract is not None and not (self.current is not None and qual in self.current.inline):
             yield from self.apply_contract(ctx, contract, obj, node, args, kwargs, qual)
             return
         yield from self.inline(ctx, node, obj, (mod, cname), mod, args, kwargs, qual)
